@@ -139,6 +139,12 @@ pub struct BitIter<I: Iterator<Item = u8>> {
     read_bits: usize,
     /// Total number of read bits
     total_read: usize,
+    /// Maximum number of bits that this iterator may yield in total.
+    ///
+    /// This is `usize::MAX` except for windows created by
+    /// [`BitIter::byte_slice_window`], which must stop at their end bit even
+    /// if it does not fall on a byte boundary.
+    total_limit: usize,
 }
 
 impl From<Vec<u8>> for BitIter<std::vec::IntoIter<u8>> {
@@ -150,6 +156,7 @@ impl From<Vec<u8>> for BitIter<std::vec::IntoIter<u8>> {
             // from the underlying iterator
             read_bits: 8,
             total_read: 0,
+            total_limit: usize::MAX,
         }
     }
 }
@@ -163,6 +170,7 @@ impl<'a> From<&'a [u8]> for BitIter<std::iter::Copied<std::slice::Iter<'a, u8>>>
             // from the underlying iterator
             read_bits: 8,
             total_read: 0,
+            total_limit: usize::MAX,
         }
     }
 }
@@ -176,6 +184,7 @@ impl<I: Iterator<Item = u8>> From<I> for BitIter<I> {
             // from the underlying iterator
             read_bits: 8,
             total_read: 0,
+            total_limit: usize::MAX,
         }
     }
 }
@@ -184,6 +193,9 @@ impl<I: Iterator<Item = u8>> Iterator for BitIter<I> {
     type Item = bool;
 
     fn next(&mut self) -> Option<bool> {
+        if self.total_read >= self.total_limit {
+            return None;
+        }
         if self.read_bits < 8 {
             self.read_bits += 1;
             self.total_read += 1;
@@ -197,7 +209,8 @@ impl<I: Iterator<Item = u8>> Iterator for BitIter<I> {
 
     fn size_hint(&self) -> (usize, Option<usize>) {
         let (lo, hi) = self.iter.size_hint();
-        let adj = |n| 8 - self.read_bits + 8 * n;
+        let left = self.total_limit - self.total_read;
+        let adj = |n| core::cmp::min(8 - self.read_bits + 8 * n, left);
         (adj(lo), hi.map(adj))
     }
 }
@@ -231,6 +244,7 @@ impl<'a> BitIter<std::iter::Copied<std::slice::Iter<'a, u8>>> {
                 cached_byte: 0,
                 read_bits: 8,
                 total_read: 0,
+                total_limit: end - start,
             }
         } else {
             BitIter {
@@ -238,6 +252,7 @@ impl<'a> BitIter<std::iter::Copied<std::slice::Iter<'a, u8>>> {
                 iter,
                 read_bits,
                 total_read: 0,
+                total_limit: end - start,
             }
         }
     }
@@ -269,6 +284,9 @@ impl<I: Iterator<Item = u8>> BitIter<I> {
     /// Reads a byte from the iterator.
     pub fn read_u8(&mut self) -> Result<u8, EarlyEndOfStreamError> {
         debug_assert!(self.read_bits > 0);
+        if self.total_limit - self.total_read < 8 {
+            return Err(EarlyEndOfStreamError);
+        }
         let cached = self.cached_byte;
         self.cached_byte = self.iter.next().ok_or(EarlyEndOfStreamError)?;
         self.total_read += 8;
